@@ -295,6 +295,7 @@ Lemma send_discover_as_udp4 c ch ci xid opts junk :
     (dhcp_client_nf ch ci xid (append_options opts)) junk.
 Proof.
   intros Hch Hci Hx HJ Hlen. unfold send_discover, udp4_send.
+  rewrite (proj1 Hch). cbn [Nat.eqb negb].
   unfold is4 at 1. rewrite (proj1 Hci). cbn [Nat.eqb]. cbv beta iota zeta.
   set (b := enc_udp 34 (enc_ip4 14 (enc_ether junk 2048 (host_mac c) (router_mac c)) 50 (host_ip4 c) (router_ip4 c)) 68 67).
   assert (Hb : length b = EthMaxSize) by (unfold b; rewrite enc_hdrs_length; exact HJ).
@@ -342,6 +343,14 @@ Proof.
   - unfold is4 at 1. rewrite (proj1 Hci). cbn [Nat.eqb]. apply G; auto.
   - rewrite Hci. apply G; [split; [reflexivity|oks]|].
     unfold send_discover. rewrite Hci. reflexivity.
+Qed.
+
+(* a chaddr that is not 6 bytes (nil included) is refused (since fix bc82719) *)
+Lemma send_discover_refuses c ch ci xid opts junk :
+  match ch with Some a => Nat.eqb (length a) 6 | None => false end = false ->
+  send_discover c ch ci xid opts junk = Ok [].
+Proof.
+  unfold send_discover. intros H. destruct ch as [a|]; [rewrite H|]; reflexivity.
 Qed.
 
 (* non-vacuity: the option sets the library sends satisfy the hypotheses *)
